@@ -8,8 +8,9 @@ caught = {}
 for lg in logs:
     cur = None
     for line in open(lg):
-        m = re.match(r'^#+ (C\d\d)/([AB])', line)
+        m = re.match(r'^#+ (C\d\d|N[A-D])/([AB]|M\d)', line)
         if m: cur = (m.group(1), m.group(2)); continue
+        if line.startswith('####'): cur = None; continue
         m = re.match(r'^CAUGHT-BY:(.*)', line)
         if m and cur: caught[cur] = m.group(1).split()
 verify = {}
